@@ -141,6 +141,10 @@ class SyncInterpreter(BaseInterpreter[TContext, TEvent]):
         self._after_events: Dict[str, threading.Event] = {}
         #: Cancellation flags for pending delayed sends, released by `stop()`.
         self._pending_send_cancels: Set[threading.Event] = set()
+        #: Makes "is the registered canceller still mine?" + removal, and
+        #: "supersede the previous holder" + registration, atomic between
+        #: the interpreter and its delayed-send threads.
+        self._sends_lock = threading.Lock()
         #: Events enqueued while a macrostep was being processed, i.e. raised
         #: by the machine itself. Only these count towards `maxIterations`.
         self._chained_sends: int = 0
@@ -1113,8 +1117,14 @@ class SyncInterpreter(BaseInterpreter[TContext, TEvent]):
             """Delivers the event unless cancelled while waiting."""
             if cancel_flag.wait(delay / 1000.0):
                 return
+            # 🔁 Deregister only OUR OWN entry. A send re-armed under the same
+            #    id while this one was already expiring owns the registration
+            #    now; popping it blindly made that newer send uncancellable
+            #    (the async engine performs the same identity check).
             if send_id:
-                self._scheduled_sends.pop(str(send_id), None)
+                with self._sends_lock:
+                    if self._scheduled_sends.get(str(send_id)) is _cancel:
+                        self._scheduled_sends.pop(str(send_id), None)
             self._pending_send_cancels.discard(cancel_flag)
             try:
                 actor.send(target_event)
@@ -1136,10 +1146,11 @@ class SyncInterpreter(BaseInterpreter[TContext, TEvent]):
             self._pending_send_cancels.discard(cancel_flag)
 
         if send_id:
-            previous = self._scheduled_sends.get(str(send_id))
-            if previous is not None:
-                previous()
-            self._scheduled_sends[str(send_id)] = _cancel
+            with self._sends_lock:
+                previous = self._scheduled_sends.get(str(send_id))
+                if previous is not None:
+                    previous()
+                self._scheduled_sends[str(send_id)] = _cancel
 
         # 🧹 Track every pending waiter so `stop()` can release it. The
         #    threads are daemons (they cannot block interpreter exit), but a
